@@ -13,7 +13,7 @@ EXPLANATION = (
     'test depends on the poll result being Pending (Suspended), on the woken flag and on Arc::strong_count of the per-poll waker, read '
     'after the executor\'s own Waker copy was dropped; R07.d every hand-written poll function of crux_core and crux_time that returns Pending has '
     'kept a clone of the waker of the current poll (the premise under which "no clone survives" means "cannot be woken"). R07.b also requires that every '
-    'task leaving the slab — finished, aborted or evicted — publishes `finished` and wakes its join handles (after the removal, or on every terminal path of run_task). R07.h the task slabs of the command and of the core executor are used only through operations that keep every remaining task under its key (TaskIds live in wakers and queues). R07.g both executor loops re-read the spawn and ready queues after any task has run, on every path out, so a task spawned in the last poll of an evicted task is in the slab before is_done looks (shared with C01 R01.e). NOT decided: exactness of the waker-count heuristic — whether "no surviving '
+    'task leaving the slab — finished, aborted or evicted — publishes `finished` and wakes its join handles (after the removal, or on every terminal path of run_task). R07.h the task slabs of the command and of the core executor are used only through operations that keep every remaining task under its key (TaskIds live in wakers and queues). R07.j every read of a ready queue (found by the receiver type Receiver<TaskId>) hands the ids it takes to run_task (shared with C12 R12.h). R07.g both executor loops re-read the spawn and ready queues after any task has run, on every path out, so a task spawned in the last poll of an evicted task is in the slab before is_done looks (shared with C01 R01.e). NOT decided: exactness of the waker-count heuristic — whether "no surviving '
     'waker clone" coincides with "can never be woken" for every mix of joins, selects, channels and self-waking futures depends on '
     'what arbitrary user futures do with wakers at run time.')
 
@@ -204,6 +204,9 @@ def check(ctx, rep):
     # may have spawned in its last poll), before is_done looks at the slab (shared with C01 R01.e)
     rep.rule('R07.g', 'both executor loops read both queues and return only after finding them empty again once any task has run', floor=5)
     c01.check_executor_loops(rep, core, rid='R07.g')
+    # R07.j: a task that can still be woken is polled when it is: the ids taken off a ready queue all go to run_task
+    rep.rule('R07.j', 'every task id taken off a ready queue is handed to run_task', floor=2)
+    c01.check_ready_ids_are_run(rep, 'R07.j', core)
     # R07.h: a suspended task is reached through the TaskId its wakers and the ready queue hold, which is its key in the task slab: no
     # slab operation may move a live task to another key (compact, drain-and-reinsert), or its wake-ups poll nothing — or somebody else —
     # and the task is never finished nor evicted (the same rule as the bridge registry's, R09.a)
